@@ -237,13 +237,21 @@ func decorate(r *core.Rand, rules []hsim.MRule) string {
 	}
 	ws := func() string { return []string{" ", "  ", "\n", "\t", " /* c */ ", " // line\n"}[r.Intn(6)] }
 	num := func(v int64) string {
-		switch r.Intn(3) {
-		case 0:
-			return fmt.Sprintf("0x%X", v)
-		case 1:
-			return fmt.Sprintf("0%o", v)
+		sign := ""
+		if v < 0 {
+			sign, v = "-", -v
 		}
-		return fmt.Sprintf("%d", v)
+		switch r.Intn(5) {
+		case 0:
+			return sign + fmt.Sprintf("0x%X", v)
+		case 1:
+			return sign + fmt.Sprintf("0X%x", v)
+		case 2:
+			if v != 0 {
+				return sign + fmt.Sprintf("0%o", v)
+			}
+		}
+		return sign + fmt.Sprintf("%d", v)
 	}
 	var b strings.Builder
 	b.WriteString("// generated document\n")
@@ -257,7 +265,7 @@ func decorate(r *core.Rand, rules []hsim.MRule) string {
 			}
 		}
 		if m.Sal != nil {
-			b.WriteString(kw("salience") + ws() + fmt.Sprintf("%d", *m.Sal) + ws())
+			b.WriteString(kw("salience") + ws() + num(*m.Sal) + ws())
 		}
 		b.WriteString("{" + ws() + kw("when") + ws() + "F.B" + ws() + "==" + ws() + kw("true") + ws() + kw("then") + ws())
 		q := "\""
